@@ -43,8 +43,20 @@ type parkedCall struct {
 	op  string
 	seq int
 	req int
-	ch  chan error
+	ch  chan releaseMsg
 	ctx context.Context
+	// straggler: overtaken by a cancellation, but "already answered": stays
+	// schedulable and completes (late) whenever the tape releases it
+	straggler bool
+}
+
+// releaseMsg: err != nil - the call fails without reaching storage; late - the
+// call's context was cancelled while it was parked, but the storage round trip
+// "had already completed": the call is carried out on a detached context and its
+// caller continues with the rows (a straggler of a cancelled sub-check).
+type releaseMsg struct {
+	err  error
+	late bool
 }
 
 type Sched struct {
@@ -60,19 +72,22 @@ type Sched struct {
 	Cancels     []context.CancelFunc
 
 	// state
-	Released    int
-	persistent  bool
-	Trace       []string
-	MaxParked   int
-	Quanta      int
-	FaultsFired map[string]int
-	OpCount     map[string]int
-	ParkedSets  map[uint64]struct{}
-	draining    bool
-	CancelledAt int // released calls at the moment the cancel was delivered (-1: none)
-	Ties        int
-	Zombies     int // calls that arrived on, or were overtaken by, a cancelled context
-	idleRounds  int
+	Released        int
+	persistent      bool
+	Trace           []string
+	MaxParked       int
+	Quanta          int
+	FaultsFired     map[string]int
+	OpCount         map[string]int
+	ParkedSets      map[uint64]struct{}
+	draining        bool
+	CancelledAt     int // released calls at the moment the cancel was delivered (-1: none)
+	Ties            int
+	Zombies         int // calls that arrived on, or were overtaken by, a cancelled context
+	idleRounds      int
+	LateCompletions bool   // overtaken calls may complete late (tape-chosen)
+	OnQuantum       func() // called after every release (staggered request starts)
+	Late            int
 }
 
 func NewSched(t *Tape) *Sched {
@@ -90,7 +105,7 @@ func NewSched(t *Tape) *Sched {
 // Enter is called by the L1 seam before every storage call. It parks the
 // caller until the controller releases it and returns the injected error, if
 // any. req identifies the request the call belongs to (from the context).
-func (s *Sched) Enter(ctx context.Context, op, key string) error {
+func (s *Sched) Enter(ctx context.Context, op, key string) (error, bool) {
 	// A storage call issued on a context that is already cancelled fails at
 	// once in database/sql; it never reaches the database and is not a
 	// scheduling event. (Whether a cancelled sub-check gets this far at all is
@@ -100,15 +115,16 @@ func (s *Sched) Enter(ctx context.Context, op, key string) error {
 		s.mu.Lock()
 		s.Zombies++
 		s.mu.Unlock()
-		return err
+		return err, false
 	}
-	p := &parkedCall{key: key, op: op, ch: make(chan error), req: reqOf(ctx), ctx: ctx}
+	p := &parkedCall{key: key, op: op, ch: make(chan releaseMsg), req: reqOf(ctx), ctx: ctx}
 	s.mu.Lock()
 	p.seq = s.arrivals
 	s.arrivals++
 	s.parked = append(s.parked, p)
 	s.mu.Unlock()
-	return <-p.ch
+	m := <-p.ch
+	return m.err, m.late
 }
 
 type reqKey struct{}
@@ -227,6 +243,9 @@ func (s *Sched) Drive(done func() bool, maxSteps int) DriveOutcome {
 		s.ParkedSets[h] = struct{}{}
 		p := classes[s.tape.Choose(len(classes))]
 		s.release(p)
+		if s.OnQuantum != nil {
+			s.OnQuantum()
+		}
 	}
 }
 
@@ -234,6 +253,12 @@ func (s *Sched) release(p *parkedCall) {
 	s.remove(p)
 	s.Released++
 	s.OpCount[p.op]++
+	if p.straggler {
+		s.Late++
+		s.Trace = append(s.Trace, p.key)
+		p.ch <- releaseMsg{late: true}
+		return
+	}
 	var err error
 	if s.persistent {
 		err = ErrInjected
@@ -264,7 +289,7 @@ func (s *Sched) release(p *parkedCall) {
 	} else {
 		s.Trace = append(s.Trace, p.key)
 	}
-	p.ch <- err
+	p.ch <- releaseMsg{err: err}
 }
 
 // flushZombies fails every parked call whose context has been cancelled in
@@ -272,12 +297,25 @@ func (s *Sched) release(p *parkedCall) {
 func (s *Sched) flushZombies(P []*parkedCall) bool {
 	any := false
 	for _, p := range P {
+		if p.straggler {
+			continue
+		}
 		if err := p.ctx.Err(); err != nil {
-			s.remove(p)
 			s.mu.Lock()
 			s.Zombies++
 			s.mu.Unlock()
-			p.ch <- err
+			// The call was parked while its context was live and has been overtaken by a
+			// cancellation (a deterministic event). The tape decides whether the query
+			// "was already answered" when the cancellation arrived: then it becomes a
+			// straggler - it stays schedulable and, whenever the tape releases it, its
+			// caller (a cancelled sub-check) continues with real rows.
+			if s.LateCompletions && s.tape.Choose(3) == 0 {
+				p.straggler = true
+				p.key = "late:" + p.key
+				continue
+			}
+			s.remove(p)
+			p.ch <- releaseMsg{err: err}
 			any = true
 		}
 	}
@@ -299,6 +337,11 @@ func (s *Sched) Drain(limit int) (released int) {
 		if s.flushZombies(P) {
 			released++
 			continue
+		}
+		// what is left: stragglers (complete late) and calls on contexts the request does not own
+		P = s.snapshot()
+		if len(P) == 0 {
+			return
 		}
 		s.release(P[0])
 		released++
